@@ -80,6 +80,77 @@ def mk_type(sel, b, lit_flags=(False, False, False, False, False), popt=0):
     return {"kind": "map", "key": {"kind": "reference", "name": "Key"}, "value": {"kind": "and", "items": [ref, {"kind": "reference", "name": "Bar"}]}}
 
 
+NWRAP = 7
+
+
+def nest(outer, inner_t, b):
+    """a type expression of lsp.schema.json wrapped once more: every kind that has children, around `inner_t`"""
+    base = {"kind": "base", "name": BASES[b]}
+    if outer == 0:
+        return {"kind": "array", "element": inner_t}
+    if outer == 1:
+        return {"kind": "or", "items": [inner_t, base]}
+    if outer == 2:
+        return {"kind": "or", "items": [base, {"kind": "reference", "name": "Foo"}, inner_t]}
+    if outer == 3:
+        return {"kind": "map", "key": {"kind": "base", "name": "string"}, "value": inner_t}
+    if outer == 4:
+        return {"kind": "tuple", "items": [base, inner_t]}
+    if outer == 5:
+        return {"kind": "literal", "value": {"properties": [{"name": "inner", "type": inner_t}, {"name": "other", "type": base, "optional": True}]}}
+    return {"kind": "and", "items": [{"kind": "reference", "name": "Foo"}, inner_t]}
+
+
+def doc_nested(outer, inner, b, where):
+    """the nested type expression as property type, alias type, request result or notification params"""
+    t = nest(outer, mk_type(inner, b), b)
+    d = empty_doc()
+    if where == 0:
+        d["structures"].append({"name": "S", "properties": [{"name": "p", "type": t}]})
+    elif where == 1:
+        d["typeAliases"].append({"name": "A", "type": t})
+    elif where == 2:
+        d["requests"].append({"method": "r/m", "messageDirection": "both", "result": t, "params": [t, {"kind": "base", "name": "string"}]})
+    else:
+        d["notifications"].append({"method": "n/m", "messageDirection": "clientToServer", "params": t})
+    return d
+
+
+def flatten_once(t):
+    """the type with members of a directly nested same-kind or/and/tuple inlined (a DIFFERENT type expression)"""
+    if t.get("kind") in ("or", "and", "tuple"):
+        items = []
+        for i in t["items"]:
+            if isinstance(i, dict) and i.get("kind") == t["kind"]:
+                items.extend(i["items"])
+            else:
+                items.append(i)
+        if len(items) != len(t["items"]):
+            return dict(t, items=items)
+    return None
+
+
+def nested_differs_from_flat(outer, inner, b, where):
+    """a document with a nested or/and/tuple and the one with the inner members inlined are different documents:
+    the loads compare unequal (vacuously true where nothing can be inlined)"""
+    d1 = doc_nested(outer, inner, b, where)
+    t = nest(outer, mk_type(inner, b), b)
+    flat = flatten_once(t)
+    if flat is None:
+        return True
+    d2 = _copy(d1)
+    if where == 0:
+        d2["structures"][0]["properties"][0]["type"] = flat
+    elif where == 1:
+        d2["typeAliases"][0]["type"] = flat
+    elif where == 2:
+        d2["requests"][0]["result"] = flat
+    else:
+        d2["notifications"][0]["params"] = flat
+    m1, m2 = model.LSPModel(**_copy(d1)), model.LSPModel(**_copy(d2))
+    return (m1 == m2) is False and (m1 != m2) is True
+
+
 def _copy(x):
     """plain deep copy (json round trips are very slow under the tracer)"""
     if isinstance(x, dict):
